@@ -131,7 +131,7 @@ Lemma transaction_start_partial : forall s p r sn dn d,
   let w := Z.max (l_idw (s_cfg s)) (pr_dstw p) in
   let large := 4294967295 <? zlen d in
   let derived := derived_seg_len r w (s_seq_bits s / 8) large in
-  0 <= derived ->
+  6 <= derived ->
   exists s', transaction_start s = (s', Ok tt) /\
     q_segment_len (s_p s') = (match r_max_seg r with Some m => Z.min m derived | None => derived end) /\
     q_tid (s_p s') = Some (l_id (s_cfg s), s_seq_count s) /\
@@ -167,6 +167,10 @@ Proof.
     match goal with |- context [if ?a <? ?b then None else _] =>
       destruct (a <? b) eqn:El;
       [ apply Z.ltb_lt in El; destruct lg; destruct (r_crc r); lia | apply Z.ltb_ge in El ] end;
+    cbn;
+    match goal with |- context [if ?a <? ?b then (fun s0 : src => (s0, Err E_VALUE)) else _] =>
+      destruct (a <? b) eqn:El2;
+      [ apply Z.ltb_lt in El2; destruct lg; destruct (r_crc r); lia | apply Z.ltb_ge in El2 ] end;
     cbn; (eexists; split; [reflexivity|]); cbn;
     repeat (split; [reflexivity|]); (split; [|repeat split; try reflexivity]).
   all: clearbody lg; destruct lg; destruct (r_crc r); destruct (r_max_seg r) as [m|]; try lia.
@@ -207,6 +211,45 @@ Proof.
       | apply Z.ltb_ge in El; clearbody lg; destruct lg; destruct (r_crc r); lia ] end.
 Qed.
 
+(* F19 repair: a maximum packet length that can hold a File Data PDU with fewer than 6 bytes of file data
+   cannot hold the EOF PDU (directive code, condition code, 4-byte checksum in place of the file data)
+   and is refused as well; with [transaction_start_partial] the bound 6 is exact *)
+Lemma transaction_start_packet_too_small_partial : forall s p r sn dn d,
+  s_put s = Some p -> pr_names p = Some (sn, dn) -> q_rcfg (s_p s) = Some r ->
+  lookup (fs_s s) sn = Some (File d) -> sn <> [] -> q_file_size (s_p s) = Some 0 ->
+  q_md_only (s_p s) = false ->
+  (s_seq_bits s = 8 \/ s_seq_bits s = 16 \/ s_seq_bits s = 32) -> 0 <= s_seq_count s < 2 ^ s_seq_bits s ->
+  derived_seg_len r (Z.max (l_idw (s_cfg s)) (pr_dstw p)) (s_seq_bits s / 8) (4294967295 <? zlen d) < 6 ->
+  snd (transaction_start s) = Err E_VALUE.
+Proof.
+  intros s p r sn dn d Hp Hn Hr Hl Hne Hfs Hmd Hb Hc Hd.
+  unfold fs_s in *.
+  assert (Hex : fs_file_exists (e_fs (s_env s)) sn = true)
+    by (unfold fs_file_exists, exists_; rewrite Hl; reflexivity).
+  assert (Hsz : fs_file_size (e_fs (s_env s)) sn = Ok (zlen d))
+    by (unfold fs_file_size; rewrite Hl; reflexivity).
+  clear Hl.
+  destruct s as [cfg st step rdy qu q sb pt sc sbits env].
+  destruct q as [tid ckt akt akc ce pr sl fsz ef mdo fn rc cl conf]. destruct conf.
+  cbn in Hp, Hr, Hfs, Hmd, Hex, Hsz, Hb, Hc, Hd. subst.
+  unfold transaction_start, put_or_assert, srcfg_or_assert, gq, setq, semit, bind, get, put, gets, modify, ret, raise, when.
+  cbn. rewrite Hn. cbn. rewrite Hex, Hsz. cbn.
+  pose proof (seq_bits_ok _ Hb) as Hb'.
+  assert (Hc' : (2 ^ sbits <=? sc) = false) by (apply Z.leb_gt; lia).
+  unfold derived_seg_len in *.
+  destruct (zlen d =? 0) eqn:Ez; [apply Z.eqb_eq in Ez; rewrite Ez in *|];
+    cbn; rewrite Hb', Hc'; cbn;
+    unfold max_file_seg_len, hdr_len, fss_len, crc_len; cbn;
+    match goal with |- context [4294967295 <? ?z] => set (lg := 4294967295 <? z) in * end;
+    match goal with |- context [if ?a <? ?b then None else _] =>
+      destruct (a <? b) eqn:El; [ reflexivity | apply Z.ltb_ge in El ] end;
+    cbn;
+    match goal with |- context [if ?a <? ?b then (fun s0 : src => (s0, Err E_VALUE)) else _] =>
+      destruct (a <? b) eqn:El2;
+      [ reflexivity
+      | apply Z.ltb_ge in El2; clearbody lg; destruct lg; destruct (r_crc r); lia ] end.
+Qed.
+
 (* the statement of c19_transaction_start, with room for an extra hypothesis on the start state *)
 Definition transaction_start_stmt (extra : src -> Prop) : Prop := forall s p r sn dn d,
   extra s ->
@@ -217,7 +260,7 @@ Definition transaction_start_stmt (extra : src -> Prop) : Prop := forall s p r s
   let w := Z.max (l_idw (s_cfg s)) (pr_dstw p) in
   let large := 4294967295 <? zlen d in
   let derived := derived_seg_len r w (s_seq_bits s / 8) large in
-  0 <= derived ->
+  6 <= derived ->
   exists s', transaction_start s = (s', Ok tt) /\
     q_segment_len (s_p s') = (match r_max_seg r with Some m => Z.min m derived | None => derived end) /\
     q_tid (s_p s') = Some (l_id (s_cfg s), s_seq_count s) /\
@@ -281,20 +324,57 @@ Proof.
   intros s p r sn dn d _. exact (H s p r sn dn d I).
 Qed.
 
-(* the statement of c19_transaction_start_too_small is false as well without q_md_only = false:
-   with q_md_only = true the large-file flag is not recomputed, so a file longer than 2^32 - 1 bytes
-   with a stale sc_large = false fits although the derived length of the statement is negative *)
-Definition too_small_stmt : Prop := forall s p r sn dn d,
+(* the refusal statements without q_md_only = false.  With q_md_only = true the large-file flag is not
+   recomputed, so the header may carry a stale sc_large = false although the file is longer than 2^32 - 1 bytes:
+   the length the model derives is then 4 bytes larger than the derived length of the statement.
+   - bound 0 (c19_transaction_start_too_small): before the F19 repair this made the statement false without
+     q_md_only = false (packet length 15: File Data PDU fits, statement's length is -1).  Since the repair the
+     EOF PDU has to fit as well, which needs 6 >= 4 more bytes: the statement now holds without the hypothesis.
+   - bound 6 (c19_transaction_start_packet_too_small): still false without q_md_only = false
+     (packet length 18: EOF PDU with the stale 4-byte size field fits exactly, statement's length is 2) *)
+Definition too_small_stmt (bound : Z) : Prop := forall s p r sn dn d,
   s_put s = Some p -> pr_names p = Some (sn, dn) -> q_rcfg (s_p s) = Some r ->
   lookup (fs_s s) sn = Some (File d) -> sn <> [] -> q_file_size (s_p s) = Some 0 ->
   (s_seq_bits s = 8 \/ s_seq_bits s = 16 \/ s_seq_bits s = 32) -> 0 <= s_seq_count s < 2 ^ s_seq_bits s ->
-  derived_seg_len r (Z.max (l_idw (s_cfg s)) (pr_dstw p)) (s_seq_bits s / 8) (4294967295 <? zlen d) < 0 ->
+  derived_seg_len r (Z.max (l_idw (s_cfg s)) (pr_dstw p)) (s_seq_bits s / 8) (4294967295 <? zlen d) < bound ->
   snd (transaction_start s) = Err E_VALUE.
 
-Lemma too_small_false_aux : forall d : bytes, zlen d = 4294967296 -> ~ too_small_stmt.
+Lemma transaction_start_too_small_general : too_small_stmt 0.
+Proof.
+  intros s p r sn dn d Hp Hn Hr Hl Hne Hfs Hb Hc Hd.
+  unfold fs_s in *.
+  assert (Hex : fs_file_exists (e_fs (s_env s)) sn = true)
+    by (unfold fs_file_exists, exists_; rewrite Hl; reflexivity).
+  assert (Hsz : fs_file_size (e_fs (s_env s)) sn = Ok (zlen d))
+    by (unfold fs_file_size; rewrite Hl; reflexivity).
+  clear Hl.
+  destruct s as [cfg st step rdy qu q sb pt sc sbits env].
+  destruct q as [tid ckt akt akc ce pr sl fsz ef mdo fn rc cl conf]. destruct conf.
+  cbn in Hp, Hr, Hfs, Hex, Hsz, Hb, Hc, Hd. subst.
+  unfold transaction_start, put_or_assert, srcfg_or_assert, gq, setq, semit, bind, get, put, gets, modify, ret, raise, when.
+  cbn. rewrite Hn. cbn. rewrite Hex, Hsz. cbn.
+  pose proof (seq_bits_ok _ Hb) as Hb'.
+  assert (Hc' : (2 ^ sbits <=? sc) = false) by (apply Z.leb_gt; lia).
+  unfold derived_seg_len in *.
+  destruct mdo;
+  (destruct (zlen d =? 0) eqn:Ez; [apply Z.eqb_eq in Ez; rewrite Ez in *|];
+    cbn; rewrite Hb', Hc'; cbn;
+    unfold max_file_seg_len, hdr_len, fss_len, crc_len; cbn;
+    match type of Hd with context [4294967295 <? ?z] => set (lg := 4294967295 <? z) in * end;
+    match goal with |- context [if ?a <? ?b then None else _] =>
+      destruct (a <? b) eqn:El; [ reflexivity | apply Z.ltb_ge in El ] end;
+    cbn;
+    match goal with |- context [if ?a <? ?b then (fun s0 : src => (s0, Err E_VALUE)) else _] =>
+      destruct (a <? b) eqn:El2;
+      [ reflexivity
+      | apply Z.ltb_ge in El2; clearbody lg;
+        destruct lg; repeat match goal with x : bool |- _ => destruct x end; destruct (r_crc r); lia ] end).
+Qed.
+
+Lemma packet_too_small_false_aux : forall d : bytes, zlen d = 4294967296 -> ~ too_small_stmt 6.
 Proof.
   intros d Hd H.
-  pose (r := mkRcfg 2 1 None 15 false false 0 0 1 1 1 false false 1 1).
+  pose (r := mkRcfg 2 1 None 18 false false 0 0 1 1 1 false false 1 1).
   pose (s := mkSrc cx_cfg ST_BUSY SS_TRANSACTION_START 0 []
                (init_sparams cx_cfg <| q_rcfg := Some r |> <| q_md_only := true |>)
                None (Some cx_p) 0 16 (mkEnv 0 [([1], File d)] false [])).
@@ -314,9 +394,9 @@ Proof.
   rewrite E in Hx. discriminate Hx.
 Qed.
 
-Lemma transaction_start_too_small_false : ~ too_small_stmt.
+Lemma transaction_start_packet_too_small_false : ~ too_small_stmt 6.
 Proof.
-  apply (too_small_false_aux (repeat 0 (Z.to_nat 4294967296))).
+  apply (packet_too_small_false_aux (repeat 0 (Z.to_nat 4294967296))).
   unfold zlen. rewrite repeat_length. apply Z2Nat.id. discriminate.
 Qed.
 
